@@ -601,7 +601,8 @@ class CrateView:
             if b.promoted is None and self.want(b.path, b) and callers.get(b.path) and b.path not in used_as_value and b.path not in callers.get(b.path, ()):
                 # only helpers every caller of which lives in the same module (module-scoped rules keep their meaning)
                 mods = {(crate.body(c).module if crate.body(c) is not None else None) for c in callers[b.path]}
-                if mods == {b.module}:
+                # callers in the helper's own module or in modules nested in it (a helper shared by sibling files of a directory module)
+                if b.module and all(m is not None and (m == b.module or m.startswith(b.module + '::')) for m in mods):
                     helper_paths.add(b.path)
         for b in crate.bodies:
             if b.path in helper_paths:
